@@ -67,8 +67,8 @@ func (g *genCtx) graph(depth int, parentHasState bool, parentTy int, wide bool) 
 			} else if r.Chance(1, 60) {
 				n.Pre = true // malformed: handler without graph state
 			}
-			n.SPre = n.Pre && r.Chance(1, 4)
-			n.SPost = n.Post && r.Chance(1, 4)
+			n.SPre = n.Pre && r.Chance(1, 3)
+			n.SPost = n.Post && r.Chance(1, 3)
 			if visible {
 				n.PS = r.Intn(4)
 			} else if r.Chance(1, 40) {
@@ -261,8 +261,13 @@ func (engine) Generate(r *lib.Rng, tier string, i int) any {
 			is := cands[r.Intn(len(cands))]
 			is.Modifier = r.Chance(1, 2)
 			c.Interrupt = &is
-			c.Runs = 1
-			c.Concurrent = false
+			// most interrupted cases have one run; the others interrupt and resume every run
+			// (each under its own checkpoint id, sequentially or concurrently)
+			if r.Chance(2, 3) {
+				c.Runs = 1
+				c.Concurrent = false
+			}
+			c.Again = r.Chance(1, 3)
 		}
 	}
 	return c
